@@ -163,9 +163,32 @@ def r2_narrowing(chk, f):
 def r3_reuse(chk, f):
     """each `continue` in the preparation loop that follows a loaded cached output"""
     n = 0
-    for c in walk_no_nested(f.node):
-        if not isinstance(c, ast.Continue):
+    skip_points = [c for c in walk_no_nested(f.node) if isinstance(c, ast.Continue)]
+    # the same decision written as a filter (`pending = [inp for .. if not reusable(..)]`, expanded to a loop): the places where an
+    # iteration of a loop that loads a cached output ends without scheduling the input
+    from ..cfg import CFG as _CFG
+
+    _cfg = _CFG(f.node)
+    for L in walk_no_nested(f.node):
+        if not isinstance(L, ast.For) or any(isinstance(x, ast.Continue) for x in walk_no_nested(L)):
             continue
+        direct = [s_ for s_ in L.body for x in walk_no_nested(s_) if isinstance(x, ast.Call) and norm(x.func) == "JobOutput.load"
+                  and not any(isinstance(l2, ast.For) and l2 is not L and any(y is x for y in ast.walk(l2)) for l2 in walk_no_nested(L))]
+        if not direct or not (isinstance(L.target, ast.Tuple) and "enumerate" in norm(L.iter)):
+            continue
+        cur_ = norm(L.target.elts[-1])
+        hdr = [n_.id for n_ in _cfg.nodes if n_.kind == "for" and n_.ast is L]
+        inside = {id(x) for x in ast.walk(L)}
+        sched = {n_.id for n_ in _cfg.nodes if n_.kind == "stmt" and id(n_.ast) in inside and any(
+            isinstance(x, ast.Call) and isinstance(x.func, ast.Attribute) and ((x.func.attr == "append" and cur_ in names_in(x)) or norm(x.func) == f"{cur_}.dump") for x in ast.walk(n_.ast))}
+        if not hdr or not sched:
+            continue
+        reach = _cfg.reachable(_cfg.succs(hdr[0], {"true"}), avoid=sched | set(hdr), labels={"next", "true", "false", "back"})
+        for nid in reach:
+            nd = _cfg.nodes[nid]
+            if nd.kind == "stmt" and id(nd.ast) in inside and any(b_ == hdr[0] for b_, _l in _cfg.succ[nid]):
+                skip_points.append(nd.ast)
+    for c in skip_points:
         # what is known to hold where the item is skipped (enclosing tests, guard clauses), with boolean flags replaced by
         # the one non-constant expression they are set from in the same iteration (`reusable = (...) and out.exitcode == 0`)
         from ..canon import Env, conjuncts, path_conditions
@@ -348,8 +371,29 @@ def r7_r8_preparation(chk, f):
     chk.require(len(stores) == 1, f"{f.key}: job_len[...] = <count> not found")
     cnt = norm(stores[0].value)
     key = f"{f.key}:conformer-count-counts-every-input"
-    if cnt.startswith("len("):
-        chk.ok("C18.R7", key, f.where(stores[0]), f"job_len = {cnt}")
+    if cnt.startswith("len(") and isinstance(stores[0].value, ast.Call) and len(stores[0].value.args) == 1:
+        # len(X): X must hold one entry per input of the generator - an unfiltered list / comprehension over it, or a list that
+        # every iteration of the per-input loop appends to
+        from ..canon import Env
+
+        X = stores[0].value.args[0]
+        xdef = Env(f.node).single(X.id) if isinstance(X, ast.Name) else X
+        okx, why = False, f"`{norm(X)}` is not a list with one entry per input"
+        if isinstance(xdef, ast.Call) and call_name(xdef) in ("list", "tuple") and len(xdef.args) == 1 and isinstance(xdef.args[0], ast.Name):
+            okx = True
+        elif isinstance(xdef, (ast.ListComp,)) and len(xdef.generators) == 1:
+            okx = not xdef.generators[0].ifs
+            why = f"`{norm(X)}` is a filtered comprehension: inputs whose cached output is reused are not counted"
+        elif isinstance(xdef, ast.List) and not xdef.elts and isinstance(X, ast.Name):
+            loops = [l for l in walk_no_nested(f.node) if isinstance(l, ast.For) and "enumerate" in norm(l.iter)
+                     and any(isinstance(c, ast.Call) and norm(c.func) == f"{X.id}.append" for c in walk_no_nested(l))]
+            if len(loops) == 1:
+                hdr = [n.id for n in cfg.nodes if n.kind == "for" and n.ast is loops[0]]
+                app = {n.id for n in cfg.nodes if n.kind == "stmt" and any(isinstance(c, ast.Call) and norm(c.func) == f"{X.id}.append" for c in walk_no_nested(n.ast))}
+                okx = bool(hdr) and bool(app) and cfg.path(cfg.succs(hdr[0], {"true"}), set(hdr), avoid=app) is None
+                why = f"an iteration of the per-input loop can complete without `{X.id}.append(..)`: inputs whose cached output is reused are not counted"
+        chk.decide(okx, "C18.R7", key, f.where(stores[0]), f"job_len = {cnt}, one entry per input",
+                   f"job_len = {cnt}, but {why}: on a resumed run the finalisation loads too few outputs and stores a result reduced from a truncated list")
     else:
         loops = [l for l in walk_no_nested(f.node) if isinstance(l, ast.For) and any(isinstance(x, ast.AugAssign) and norm(x.target) == cnt for x in walk_no_nested(l)) and "enumerate" in norm(l.iter)]
         chk.require(len(loops) == 1, f"{f.key}: loop that counts `{cnt}` not found")
